@@ -110,9 +110,13 @@ void harness(void)
 	if (g_rd_n == 2 && g_rd[0].ret == 0 && g_rd[1].ret == 0 &&
 	    g_rd[0].off == block_start && g_rd[0].n == 2 &&
 	    g_rd[1].off == block_start + 2 && g_rd[1].buf == (void *)m->data) {
-		/* header bytes are the first read; recover them through the
-		   length of the second read and the un-compress decision */
-		if (g_blk_n == 0 && g_cpy_n == 0) {
+		/* the on-disk header: bit 15 set = stored uncompressed,
+		   low 15 bits = stored length */
+		hdr = (sqfs_u16)g_rd[0].val;
+		if ((hdr & 0x7FFF) != g_rd[1].n ||
+		    ((hdr & 0x8000) != 0) != (g_blk_n == 0)) {
+			loaded = false;
+		} else if (g_blk_n == 0 && g_cpy_n == 0) {
 			loaded = (m->data_used == g_rd[1].n);
 		} else if (g_blk_n == 1 && g_cpy_n == 1) {
 			loaded = g_blk[0].ret >= 0 &&
@@ -161,10 +165,6 @@ void harness(void)
 		if (!in_window)
 			VERIF_ASSERT(g_env_seq == 0, "C10.meta.seek_reject_early");
 	}
-	/* the compressed flag of the on-disk header decides the path */
-	VERIF_ASSERT(g_blk_n <= 1 && g_rd_n <= 2 && g_cpy_n <= 1,
-		     "C10.meta.seek_call_pattern");
-
 	VERIF_COVER(ret == 0 && hit);
 	VERIF_COVER(ret == 0 && !hit && g_blk_n == 0);
 	VERIF_COVER(ret == 0 && !hit && g_blk_n == 1 && g_k < m->data_used);
